@@ -180,7 +180,6 @@ func checkEnvAlter(c envAlterCase, r *h.Rec) error {
 }
 
 func TestC16_EnvAlter(t *testing.T) {
-	full := h.Thorough()
 	h.Sweep(t, h.P{Name: "env-alter"}, func(emit func(envAlterCase)) {
 		for _, m := range envAlterMessages() {
 			ctx, err := buildEnvAlter(m)
@@ -188,7 +187,7 @@ func TestC16_EnvAlter(t *testing.T) {
 				h.HarnessError("env-alter: cannot build %s: %v", m.Msg, err)
 			}
 			for p := range ctx.Orig {
-				for _, x := range xorValues(p, h.Seed, full && len(ctx.Orig) <= 400) {
+				for _, x := range xorValues(p, h.Seed, alterLevel(m.Msg, len(ctx.Orig))) {
 					emit(envAlterCase{envAlterCtx: *ctx, Pos: p, Xor: x})
 				}
 			}
